@@ -37,6 +37,8 @@ def h_equivalence(ctx, case):
     last = len(levels) - 1
     for n in names[last]:
         data[levels[last]][n] = [f"cell_{n}"]
+    if case.get('alias') and len(set(names[last])) != len(names[last]):
+        raise core.PathAbort('alias collides within a level')
     orc = Oracle(levels, names, parents)
     tree, err = LL.validator_accepts(data)
     if tree is None:
@@ -146,10 +148,13 @@ def h_markers_of_removed_parents(ctx, case):
 
 HARNESSES = [
     Harness('reduction_equivalence', h_equivalence, setup=LL.setup,
-            cases=[{'sizes': s} for s in ([2, 3], [1, 2, 3], [2, 2, 3])],
+            cases=[{'sizes': s} for s in ([2, 3], [1, 2, 3], [2, 2, 3])]
+            + [{'sizes': [2, 2, 2], 'alias': True}],
             thorough_cases=[{'sizes': s} for s in
                             ([2, 3], [1, 2, 3], [2, 2, 3], [2, 3, 4],
-                             [2, 2, 2, 3], [1, 2, 2, 3])],
+                             [2, 2, 2, 3], [1, 2, 2, 3])]
+            + [{'sizes': [2, 2, 3], 'alias': True},
+               {'sizes': [1, 2, 2], 'alias': True}],
             funcs=['TaxonomyTree._drop_level', 'flatten',
                    'backfill_assignments'] + C03.FUNCS,
             stubs=C03.STUBS, assumptions=C03.ASSUME,
